@@ -7,6 +7,16 @@ func adjustConfigFor(cfg *Config, prop string, seed uint64) {
 	switch prop {
 	case "C12":
 		cfg.Suffix = true
+	case "C07":
+		cfg.WCrash, cfg.WRestart = 4, 10
+		if cfg.MaxCrashes < 3 {
+			cfg.MaxCrashes = 3
+		}
+		cfg.ArmedCrashes = seed%4 == 0
+		cfg.WALTruncate = seed%3 == 0
+		if cfg.WALHeadLimit == 0 && seed%2 == 0 {
+			cfg.WALHeadLimit = 4096
+		}
 	case "C03":
 		if cfg.MaxCrashes == 0 {
 			cfg.WCrash, cfg.WRestart, cfg.MaxCrashes = 3, 8, 3
@@ -22,4 +32,11 @@ func configureFor(w *World, prop string) {
 	}
 }
 
-var configurers []func(w *World, prop string)
+var configurers = []func(w *World, prop string){
+	func(w *World, prop string) {
+		if prop == "C07" {
+			w.TrackDigests = true
+			w.OnRestart = walOnRestart
+		}
+	},
+}
